@@ -54,7 +54,7 @@ plan("C07", "other",
      "bounded only.")
 plan("C08", "other",
      "constant_key partition = CPython's constant-table partition with NaNs identified over all pairs of binary64 / complex / int values and across constructors (E1), Constant.__eq__ iff same "
-     "override and same key, __hash__ hashes exactly the pair __eq__ compares and never a NaN (E1), all data classes frozen with immutable field types, every field the encoder reads "
+     "override and same key, __hash__ hashes exactly the pair __eq__ compares and never a NaN (E1), all data classes frozen with immutable field types, the decoder's call-site contract stores only immutable values in the private instruction fields (bytes_to_blocks, E1 modular), every field the encoder reads "
      "participates in == and hash (E1 static; with determinism of to_code this is 'equal data => identical code'); the composition and route pairs against ctypes _PyCode_ConstantKey are bounded (E3).",
      assumptions=["builtin hash() respects == on tuples/str/bool/None/type objects/ints/non-NaN floats"])
 plan("C09", "proof",
@@ -71,7 +71,7 @@ plan("C10", "other",
 plan("C11", "proof",
      "For every 32-bit flag word (bit-vector): to_flags_data raises iff a bit outside the interpreter's defined flags is set, otherwise from_flags_data(to_flags_data(f)) == f; to_code_data returns "
      "only if every flag was consumed into a field (modular, all subsets of the defined flags) and from_code_data rebuilds exactly that set and passes the counts through; the header round-trip "
-     "lemma composes the two.  The assumed contract of enum._decompose and the whole statement are also enumerated exhaustively on the real interpreters (E3: all 2^18 subsets in the thorough tier).",
+     "lemma composes the two.  The assumed contract of enum._decompose and the whole statement are also enumerated exhaustively on the real interpreters (E3: all 2^18 subsets in the thorough tier); hand-altered headers (single flag-bit flips, argument counts +-1 with and without a matching name, swapped counts) must be refused or reproduced exactly, also in a child interpreter started with -O, where guards written as assert do not exist (E3).",
      assumptions=["contract of enum._decompose (members whose bit is contained in the value; uncovered bits) - validated exhaustively by E3",
                   "rule 6 (generic-element rule) for the two accumulate-only member loops, side condition checked syntactically"])
 plan("C12", "proof",
